@@ -116,6 +116,7 @@ func init() {
 		for i := range opts {
 			opts[i] = i
 		}
+		m.checkName(name)
 		v := m.decideLazy("choose:"+name, func() []int { return opts })
 		m.inputs = append(m.inputs, &inputRec{Name: name, Kind: "choose", W: v})
 		return MkBV(64, uint64(v))
